@@ -267,12 +267,15 @@ KernelTerminate(d, eof) ==
 (* the stream yields the next item: the oldest completed chunk (io_uring), or a fresh single
    receive (polling); kk bytes leave the transport with it. A plain buffer stream ends at a
    zero length item (Ready(None)); a stream of ancillary results yields the empty item and goes
-   on (the consumer sees the end of the byte stream as empty items). DevPollMultiLen: on the
-   polling driver an ancillary item reports no payload, the kk bytes it consumed are gone. *)
-MultiNext(d, kk) ==
+   on (the consumer sees the end of the byte stream as empty items). DevPollMultiLen (lenlost):
+   on the polling driver an ancillary item reports no payload, the kk bytes it consumed are
+   gone; the pinned code does this for every such item (PollLenLost). *)
+PollLenLost(d, kk) == manc[d] /\ drv = "poll" /\ DevPollMultiLen /\ kk > 0
+
+MultiNext(d, kk, lenlost) ==
   /\ hnd[R(d)] > 0
-  /\ LET lenlost == manc[d] /\ drv = "poll" /\ DevPollMultiLen /\ kk > 0
-         chunk == IF drv = "iour" THEN Head(mq[d]) ELSE RTake(q[d], kk)
+  /\ (lenlost => manc[d] /\ drv = "poll" /\ DevPollMultiLen /\ kk > 0)
+  /\ LET chunk == IF drv = "iour" THEN Head(mq[d]) ELSE RTake(q[d], kk)
          ends == ~manc[d] /\ kk = 0
      IN
      /\ \/ /\ drv = "iour" /\ marm[d] \in {"armed", "term"} /\ mq[d] # <<>>
@@ -416,20 +419,23 @@ DgKernelPrefetch(t) ==
    (recv_multi) ends at an empty datagram (endonempty), the others (ownlen: results that carry
    their own payload length) yield it. DevPollMultiLen: on the polling driver such a result
    reports an empty payload. *)
-DgItem(h, cap, withsrc, withflags, ownlen) ==
+DgLenLost(h, cap, ownlen) == ownlen /\ drv = "poll" /\ DevPollMultiLen /\ Min(h[2], cap) > 0
+DgItem(h, cap, withsrc, withflags, lenlost) ==
   LET r == DgResult(h, cap, withsrc, withflags) IN
-  IF ownlen /\ drv = "poll" /\ DevPollMultiLen /\ r.k > 0 THEN [r EXCEPT !.k = 0, !.lenlost = TRUE] ELSE r
+  IF lenlost THEN [r EXCEPT !.k = 0, !.lenlost = TRUE] ELSE r
 
-DgMultiNext(t, cap, withsrc, withflags, ownlen) ==
+DgMultiNext(t, cap, withsrc, withflags, ownlen, lenlost) ==
+  /\ (lenlost => \/ (drv = "iour" /\ dmq[t] # <<>> /\ DgLenLost(Head(dmq[t]), cap, ownlen))
+                 \/ (drv = "poll" /\ dq[t] # <<>> /\ DgLenLost(Head(dq[t]), cap, ownlen)))
   /\ \/ /\ drv = "iour" /\ dmarm[t] = "armed" /\ dmq[t] # <<>>
-        /\ LET r == DgItem(Head(dmq[t]), cap, withsrc, withflags, ownlen) IN
+        /\ LET r == DgItem(Head(dmq[t]), cap, withsrc, withflags, lenlost) IN
              /\ dgot' = [dgot EXCEPT ![t] = Append(@, r)]
              /\ ret' = [op |-> "dgmitem", end |-> (~ownlen /\ r.k = 0)] @@ r
              /\ dmarm' = [dmarm EXCEPT ![t] = IF ~ownlen /\ r.k = 0 THEN "off" ELSE @]
         /\ dmq' = [dmq EXCEPT ![t] = Tail(@)]
         /\ UNCHANGED dq
      \/ /\ drv = "poll" /\ dmarm[t] = "idle" /\ dq[t] # <<>>
-        /\ LET r == DgItem(Head(dq[t]), cap, withsrc, withflags, ownlen) IN
+        /\ LET r == DgItem(Head(dq[t]), cap, withsrc, withflags, lenlost) IN
              /\ dgot' = [dgot EXCEPT ![t] = Append(@, r)]
              /\ ret' = [op |-> "dgmitem", end |-> (~ownlen /\ r.k = 0)] @@ r
              /\ dmarm' = [dmarm EXCEPT ![t] = IF ~ownlen /\ r.k = 0 THEN "off" ELSE @]
@@ -571,7 +577,7 @@ ReaderStep(d) ==
        \/ "vec" \in Feat /\ RecvVectored(d, c \div 2, c - (c \div 2), k)
        \/ "managed" \in Feat /\ RecvManaged(d, c, k)
        \/ "msg" \in Feat /\ RecvMsg(d, c, 0, k)
-       \/ MultiNext(d, k)
+       \/ MultiNext(d, k, PollLenLost(d, k))
   \/ "multi" \in Feat /\ \E c \in Caps, anc \in BOOLEAN : MultiOpen(d, EffCap(c), anc)
   \/ MultiDrop(d)
   \/ MultiResubmit(d)
@@ -592,7 +598,8 @@ NextDgram ==
   \/ \E c \in Caps, w \in Reports :
        \/ DgRecv("b", c, w[1], w[2])
        \/ DgRecvManaged("b", c, w[1], w[2])
-       \/ \E ol \in BOOLEAN : DgMultiNext("b", EffCap(c), w[1], w[2], ol)
+       \/ \E ol \in BOOLEAN :
+            DgMultiNext("b", EffCap(c), w[1], w[2], ol, dq["b"] # <<>> /\ DgLenLost(Head(dq["b"]), EffCap(c), ol))
   \/ DgMultiOpen("b") \/ DgKernelPrefetch("b") \/ DgMultiDrop("b") \/ DgOverflow("b")
 
 NextListen ==
@@ -612,7 +619,7 @@ SpecListen == Init /\ [][NextListen]_vars
    of the stream) eventually does; an acceptor that can accept eventually does ---- *)
 Consume(d) ==
   \/ \E c \in Caps \ {0}, k \in 0..SockBuf : (k > 0 \/ (q[d] = <<>> /\ shut[d])) /\ RecvPlain(d, c, k)
-  \/ \E k \in 0..SockBuf : MultiNext(d, k)
+  \/ \E k \in 0..SockBuf : MultiNext(d, k, PollLenLost(d, k))
 
 KernelProgress(d) == (\E k \in 1..SockBuf : KernelPrefetch(d, k)) \/ KernelTerminate(d, TRUE)
 
